@@ -224,8 +224,10 @@ type HistOp struct {
 }
 
 type HistCase struct {
-	ID  string   `json:"id"`
-	Ops []HistOp `json:"ops"`
+	ID     string   `json:"id"`
+	Ops    []HistOp `json:"ops"`
+	Sweep  bool     `json:"sweep"`  // run the case once per byte offset of its crash op (K = 0, stride, 2*stride, ... and the last bytes)
+	Stride int      `json:"stride"` // 0 or 1: every offset
 }
 
 func histfileMain(args []string) {
@@ -259,11 +261,12 @@ func histfileMain(args []string) {
 		}
 		return st.Size()
 	}
-	for ci := from; ci < len(sc.Cases); ci++ {
-		hc := sc.Cases[ci]
+	var crashGrew int64
+	runOne := func(hc HistCase, ci int, kOverride int) {
 		path := filepath.Join(dir, fmt.Sprintf("h%d", ci))
 		os.WriteFile(path, nil, 0o600)
 		emit(map[string]any{"ev": "case", "c": hc.ID, "ci": ci})
+		crashGrew = 0
 		func() {
 			defer func() {
 				if p := recover(); p != nil {
@@ -293,6 +296,10 @@ func histfileMain(args []string) {
 						"rep": op.Rep, "line": op.Line, "trim": strInts(strings.TrimSpace(text)), "len": len([]rune(strings.TrimSpace(text)))}
 					if op.Op == "crash" {
 						k := int64(op.K)
+						if kOverride >= 0 {
+							k = int64(kOverride)
+						}
+						crashGrew = after - before
 						if k > after-before {
 							k = after - before
 						}
@@ -345,6 +352,36 @@ func histfileMain(args []string) {
 			}
 		}()
 		os.Remove(path)
+	}
+	for ci := from; ci < len(sc.Cases); ci++ {
+		hc := sc.Cases[ci]
+		if !hc.Sweep {
+			runOne(hc, ci, -1)
+			continue
+		}
+		stride := hc.Stride
+		if stride < 1 {
+			stride = 1
+		}
+		base := hc.ID
+		seen := map[int]bool{}
+		// first the offsets from the front, then the last four bytes of the append
+		for k := 0; ; k += stride {
+			hc.ID = fmt.Sprintf("%s#%d", base, k)
+			runOne(hc, ci, k)
+			seen[k] = true
+			if int64(k+stride) >= crashGrew {
+				break
+			}
+		}
+		g := int(crashGrew)
+		for _, k := range []int{1, 2, g - 4, g - 3, g - 2, g - 1} {
+			if k >= 0 && k < g && !seen[k] {
+				seen[k] = true
+				hc.ID = fmt.Sprintf("%s#%d", base, k)
+				runOne(hc, ci, k)
+			}
+		}
 	}
 	emit(map[string]any{"ev": "done", "cases": len(sc.Cases)})
 	w.Flush()
